@@ -1,6 +1,6 @@
 """C01 — legal move generation: structural clauses C01-EP, C01-KING, C01-CASTLE, C01-FLAGS, C01-CHECK
 (DESIGN.md §3)."""
-from facts import (norm, show, walk, strip_refs, deep_strip, is_call_to, callee_name, find_calls, guard_conditions,
+from facts import (decision_paths, norm, show, walk, strip_refs, deep_strip, is_call_to, callee_name, find_calls, guard_conditions,
                    option_guard, mentions_call)
 
 EXPLANATION = (
@@ -832,10 +832,14 @@ def rule_label(fx, rep):
     counted = set()
     if True:
         for site_b, bb, t, ctor, b, src, dst in ctor_sites(fx):
-            n += 1
+            kinds_here = [None]
+            if ctor.endswith("promotion"):
+                kinds_here = promo_kinds(fx, site_b, bb, t)
+            n += len(kinds_here)
             if ctor.endswith("promotion") and (site_b.name, bb) not in counted:
                 counted.add((site_b.name, bb))
-                promo[ctor].append((norm(site_b.name), enum_name_of(site_b.expr(t["args"][2], expand_named=True, at=bb)), t.get("line")))
+                for kd in kinds_here:
+                    promo[ctor].append((norm(site_b.name), kd, t.get("line")))
             dset = iter_source(dst)
             good, why = False, ""
             if ctor in ("capture", "capture_promotion"):
@@ -927,7 +931,7 @@ def rule_promorank(fx, rep):
             factors = and_factors(sset)
             if not any(is_pawn_set(fx, b, f) for f in factors):
                 continue
-            n += 1
+            n += len(promo_kinds(fx, site_b, bb, t)) if ctor.endswith("promotion") else 1
             kinds = {rank_mask_kind(f) for f in factors} - {None}
             if ctor.endswith("promotion"):
                 good = "promo" in kinds
@@ -943,6 +947,32 @@ def rule_promorank(fx, rep):
                 rep.violation("C01-PROMORANK", f"C01-PROMORANK/{k}" + (f"/{seen[k]}" if seen[k] > 1 else ""),
                               f"`{site_b.name}` line {t.get('line')} builds a pawn Move::{ctor} but {why}", {"fn": site_b.name, "file": site_b.file, "line": t.get("line")})
     rep.rule("C01-PROMORANK", n, 11, ok, "pawn moves split by the promotion-rank mask")
+
+
+def promo_kinds(fx, b, bb, t):
+    """promotion kinds a constructor call stands for: the constant kind, or - when the kind is the variable of a loop over a
+    constant array of kinds - every element of that array"""
+    e = b.expr(t["args"][2], expand_named=True, at=bb)
+    k = enum_name_of(e)
+    if k is not None:
+        return [k]
+    src = iter_source(e)
+    if src is not None:
+        d = deep_strip(src)
+        arr = None
+        if isinstance(d, tuple) and d[0] == "agg" and d[1] == "array":
+            arr = d
+        elif isinstance(d, tuple) and d[0] == "constpath":
+            cb = fx.body(d[1])
+            if cb is not None:
+                rets = [p for p in decision_paths(cb, 4) if p[1] is not None]
+                if len(rets) == 1 and isinstance(deep_strip(rets[0][1]), tuple) and deep_strip(rets[0][1])[0] == "agg" and deep_strip(rets[0][1])[1] == "array":
+                    arr = deep_strip(rets[0][1])
+        if arr is not None:
+            ks = [enum_name_of(x) for x in arr[2]]
+            if all(ks):
+                return ks
+    return [None]
 
 
 def enum_name_of(e):
